@@ -991,22 +991,73 @@ def used_alphabets(prog):
         a = c.args[1]
         name = macro_of_const(a.strip(casts=True)) or macro_of_const(a)
         if name is None or not name.startswith("ALPHA_"):
-            raise AnalysisBroken("R05f slot: alphabet argument %s of convert_msa_to_internal is not an ALPHA_* constant" % a.text())
+            # a local that receives the alphabet from a private helper which maps the detected kind to a constant
+            pairs = _alphabets_via_helper(prog, G, a)
+            if not pairs:
+                raise AnalysisBroken("R05f slot: alphabet argument %s of convert_msa_to_internal is not an ALPHA_* constant" % a.text())
+            before, after = rel(G, c)
+            for nm, bio in pairs:
+                info.append((nm, c, G, before, after, bio))
+                if before:
+                    phases["distance"].append((nm, c))
+                if after:
+                    phases["alignment"].append((nm, c))
+            continue
         before, after = rel(G, c)
-        info.append((name, c, G, before, after))
+        info.append((name, c, G, before, after, None))
         if before:
             phases["distance"].append((name, c))
         if after:
             phases["alignment"].append((name, c))
     # an alphabet selected before the tree stays in force for the alignment unless replaced on the same biotype branch
-    for name, c, G, before, after in info:
+    def bio_of(node):
+        """ALN_BIOTYPE_* constants the guards of a call test"""
+        out = set()
+        for g, pol in guards(node):
+            if "biotype" in g.text():
+                for lit in g.find("IntegerLiteral"):
+                    m_ = macro_of_const(lit)
+                    if m_ and m_.startswith("ALN_BIOTYPE_"):
+                        out.add(m_)
+        return out
+    for name, c, G, before, after, bio in info:
         if not before:
             continue
-        gc = {g.text() for g, pol in guards(c) if "biotype" in g.text()}
-        replaced = [d for n2, d, G2, b2, a2 in info if a2 and d is not c and gc & {g.text() for g, pol in guards(d) if "biotype" in g.text()}]
+        if bio is not None:
+            replaced = [d for n2, d, G2, b2, a2, bio2 in info if a2 and d is not c and bio in bio_of(d)]
+        else:
+            gc = {g.text() for g, pol in guards(c) if "biotype" in g.text()}
+            replaced = [d for n2, d, G2, b2, a2, bio2 in info if a2 and d is not c and gc & {g.text() for g, pol in guards(d) if "biotype" in g.text()}]
         if not replaced and (name, c) not in phases["alignment"]:
             phases["alignment"].append((name, c))
     return phases
+
+
+def _alphabets_via_helper(prog, G, arg):
+    """[(ALPHA_* name, ALN_BIOTYPE_* name)] when arg is a local whose value comes from a private helper that switches on the
+    detected kind and returns an alphabet constant per case; [] if that is not the shape"""
+    from ..util import switch_table
+    a0 = arg.strip(casts=True)
+    if a0.k != "DeclRefExpr" or a0.d.get("dk") != "Var":
+        return []
+    calls = [d.strip(casts=True) for d, _ in local_defs(G, a0.d["did"]) if d is not None and d.strip(casts=True).k == "CallExpr"]
+    if len(calls) != 1:
+        return []
+    H = prog.functions.get(calls[0].callee)
+    if H is None or H.body is None or not H.static:
+        return []
+    out = []
+    for sw in H.body.find("SwitchStmt"):
+        for labels, stmts in switch_table(sw):
+            rets = [r for st in stmts for r in st.find("ReturnStmt") if r.kids]
+            for lab in labels:
+                if lab[0] != "case" or not rets:
+                    continue
+                nm = macro_of_const(rets[0].kids[0].strip(casts=True))
+                bio = lab[2] if len(lab) > 2 else None
+                if nm and nm.startswith("ALPHA_") and nm != "ALPHA_UNDEFINED" and bio and str(bio).startswith("ALN_BIOTYPE_"):
+                    out.append((nm, bio))
+    return out
 
 
 def r05f(ck, prog):
